@@ -228,6 +228,8 @@ def run(tape, kind):
         return out
     per_round = check_smc(out, res, run_, wl, spec, calls[:len(run_.results)])
     sr.check_in_order(out, run_, continuing=True)
+    # the populations of an EARLIER call's result are still exactly the populations it returned
+    run_.check_results_stable('pop-count')
     fams = tuple(n['dist'] + ('*' if any(isinstance(a, str) for a in n['args']) else '')
                  for n in spec['nodes'] if n['kind'] == 'prior')
     out.abstract = (list(wl['objective'])[0], len(res.populations), fams, wl['batch_size'],
